@@ -208,6 +208,10 @@ def _float_simplify(v):
         inner = strip_upd(x[1])
         if inner[0] == 'agg' and x[2] in inner[3]:
             return _float_simplify(inner[4][inner[3].index(x[2])])
+        # geo-types Coord arithmetic is component-wise (trusted): (a2 - a1).x is a2.x - a1.x, the same floating-point operation
+        if inner[0] in ('pcall', 'call') and re.search(r'geo_types::Coord<T> as std::ops::(Add|Sub)>::(add|sub)$', inner[1]) and len(inner[2]) == 2:
+            a, b = _float_simplify(('field', inner[2][0], x[2])), _float_simplify(('field', inner[2][1], x[2]))
+            return ('sub' if inner[1].endswith('sub') else 'add', a, b)
     return ('?', show(noepoch(x))[:40])
 
 
